@@ -335,3 +335,27 @@ Proof.
   - cbn [rbind]. exact H.
   - rewrite app_length. cbn [length]. lia.
 Qed.
+
+(* an HTML-like comment "<!--..." in front of LF / CR; the prevLineTerminator flag is irrelevant for it *)
+Lemma html_comment_exchange_open T R c0 RR plt plt' n : R <> [] -> no_trunc T = true -> c0 = 10 \/ c0 = 13 ->
+  html_comment plt (T ++ R) = Ok n -> n = len T -> firstz 4 T = [60; 33; 45; 45] ->
+  html_comment plt' (T ++ c0 :: RR) = Ok n.
+Proof.
+  intros HR Hnt Hc0 H Hn Htxt. unfold html_comment in H |- *.
+  destruct T as [|t0 [|t1 [|t2 [|t3 T]]]]; try discriminate.
+  assert (t0 = 60 /\ t1 = 33 /\ t2 = 45 /\ t3 = 45) as (-> & -> & -> & ->).
+  { rewrite !firstz_cons in Htxt by lia. repeat split; congruence. }
+  cbn [app] in H |- *. rewrite pkl_cons_0, pkl_1, pkl_2, pkl_3 in H |- *. cbn [rbind] in H |- *.
+  change (60 =? 60) with true in H |- *. change (33 =? 33) with true in H |- *. change (45 =? 45) with true in H |- *.
+  cbv iota in H |- *. cbn [rbind] in H |- *.
+  change (skipz 4 (60 :: 33 :: 45 :: 45 :: T ++ R)) with (T ++ R) in H.
+  change (skipz 4 (60 :: 33 :: 45 :: 45 :: T ++ c0 :: RR)) with (T ++ c0 :: RR).
+  unfold slc in *.
+  destruct (slc_loop (length (T ++ R)) (T ++ R)) as [n'| |] eqn:Es; cbn [rbind] in H; try discriminate.
+  assert (Hnn : n = 4 + n') by congruence. rewrite !len_cons in Hn. assert (n' = len T) by lia. subst n'.
+  assert (HntT : no_trunc T = true).
+  { cbn [no_trunc] in Hnt. repeat (apply andb_true_iff in Hnt; destruct Hnt as (_ & Hnt)). exact Hnt. }
+  rewrite (slc_loop_exchange c0 RR Hc0 _ _ _ HR HntT Es).
+  - cbn [rbind]. exact H.
+  - rewrite app_length. cbn [length]. lia.
+Qed.
